@@ -59,6 +59,10 @@ def cases(tier, seed):
         for drive in ("field", "tdep"):
             for scr in (False,) if quick else (False, True):
                 out.append(dict(fam="none", dev=d, drive=drive, screening=scr))
+    # non-initial starts: the run is seeded with the final state of a run that used another terminal value
+    for d in devs[:1] if quick else devs[:3]:
+        for a, b in itertools.permutations(["None", "0", "1", "0.6+0.8j"], 2):
+            out.append(dict(fam="seeded", dev=d, seed_value=a, value=b, drive="both"))
     # histories: several solves on the *same* device / mesh object with different terminal values
     seq_vals = ["0", "None", "1"] if quick else ["0", "None", "1", "0.6+0.8j"]
     for d in devs[:2]:
@@ -140,7 +144,28 @@ def run_seq(case):
     return res
 
 
-def run_pin(case, dev=None, path="out.h5"):
+def run_seeded(case):
+    import tdgl
+
+    from .. import zoo
+
+    dev = zoo.device(case["dev"])
+    dt = 2.0**-6
+    o = tdgl.SolverOptions(solve_time=6 * dt, dt_init=dt, dt_max=dt, adaptive=False, save_every=3, output_file="seedrun.h5",
+                           terminal_psi=VALUES[case["seed_value"]], progress_interval=10**9)
+    seed = tdgl.solve(dev, o, **_drive(case["dev"], case["drive"]))
+    sub = dict(fam="pin", dev=case["dev"], value=case["value"], drive=case["drive"], screening=False)
+    res = run_pin(sub, dev=dev, path="seeded.h5", seed=seed)
+    for v in res.violations:
+        v["sig"]["seeded_from_value"] = case["seed_value"]
+        v["detail"]["case"] = case
+    res.key = case_key(case)
+    res.executions = 2
+    res.outcome = "seeded"
+    return res
+
+
+def run_pin(case, dev=None, path="out.h5", seed=None):
     import h5py
     import tdgl
 
@@ -159,7 +184,7 @@ def run_pin(case, dev=None, path="out.h5"):
     )
     kw = _drive(case["dev"], case["drive"])
     try:
-        tdgl.solve(dev, opts, **kw)
+        tdgl.solve(dev, opts, seed_solution=seed, **kw)
     except RuntimeError as exc:
         if "converge" not in str(exc):
             raise
@@ -271,4 +296,4 @@ def run_none(case):
 
 
 def run_case(case):
-    return {"pin": run_pin, "none": run_none, "seq": run_seq}[case["fam"]](case)
+    return {"pin": run_pin, "none": run_none, "seq": run_seq, "seeded": run_seeded}[case["fam"]](case)
